@@ -349,3 +349,79 @@ def enumerate_paths(cfg: CFG, start, *, stop=None, edge_ok=None, max_paths=5000,
                 u[key] = c + 1
             stack.append((e.dst, path + [e], u))
     return out
+
+
+# ----------------------------------------------------------------------
+# lock sets (HELD)
+def held_locks(cfg: CFG, canon, *, is_lock=None):
+    """Must-analysis: canonical names of locks/conditions definitely held at each node's entry.
+
+    * `with L:` / `async with L:` adds L between with_enter and with_exit;
+    * `L.acquire()` as an expression statement (untimed) adds L;
+    * `ok = L.acquire(timeout=..)` makes `ok` a witness: on the true branch of a test of `ok`
+      (or the false branch of `not ok`) L is held; `if not L.acquire(...): <leave>` likewise;
+    * `L.release()` drops L.
+    State: frozenset of ('L', name) and ('W', var, name) facts.
+    """
+
+    def lockname(e):
+        c = canon(e)
+        if c is None:
+            return None
+        if is_lock is not None and not is_lock(c):
+            return None
+        return c
+
+    def acquire_call(e):
+        e = e.value if isinstance(e, ast.Await) else e
+        if isinstance(e, ast.Call) and isinstance(e.func, ast.Attribute) and e.func.attr == 'acquire':
+            return lockname(e.func.value)
+        return None
+
+    def transfer(e: Edge, s):
+        n = cfg.nodes[e.src]
+        a = n.ast
+        if e.kind == 'exc':
+            return s
+        if n.kind == 'with_enter':
+            ln = lockname(a.context_expr)
+            return s | {('L', ln)} if ln else s
+        if n.kind == 'with_exit':
+            ln = lockname(a.context_expr)
+            return frozenset(x for x in s if x != ('L', ln)) if ln else s
+        if n.kind == 'stmt':
+            if isinstance(a, ast.Expr):
+                ln = acquire_call(a.value)
+                if ln:
+                    return s | {('L', ln)}
+                v = a.value.value if isinstance(a.value, ast.Await) else a.value
+                if isinstance(v, ast.Call) and isinstance(v.func, ast.Attribute) and v.func.attr == 'release':
+                    ln = lockname(v.func.value)
+                    if ln:
+                        return frozenset(x for x in s if x != ('L', ln) and not (x[0] == 'W' and x[2] == ln))
+            if isinstance(a, ast.Assign) and len(a.targets) == 1 and isinstance(a.targets[0], ast.Name):
+                ln = acquire_call(a.value)
+                var = a.targets[0].id
+                s = frozenset(x for x in s if not (x[0] == 'W' and x[1] == var))
+                if ln:
+                    return s | {('W', var, ln)}
+            return s
+        if n.kind == 'test':
+            t = a
+            neg = False
+            while isinstance(t, ast.UnaryOp) and isinstance(t.op, ast.Not):
+                neg = not neg
+                t = t.operand
+            holds_on = 'F' if neg else 'T'
+            if isinstance(t, ast.Name):
+                for x in s:
+                    if x[0] == 'W' and x[1] == t.id and e.kind == holds_on:
+                        return s | {('L', x[2])}
+            ln = acquire_call(t)
+            if ln and e.kind == holds_on:
+                return s | {('L', ln)}
+            return s
+        return s
+
+    st = forward(cfg, frozenset(), transfer, lambda x, y: x & y)
+    return {k: frozenset(x[1] for x in v if x[0] == 'L') for k, v in st.items()}
